@@ -255,6 +255,7 @@ func checkC19(p *Prog, r *Report) {
 	r.Check("R4", "relative-end-time-seconds", okRel, "", "the remaining duration (end time minus now) is rounded to a second")
 	c18CustomJSONGuards(p, r, "R5")
 	c19Extra(p, r)
+	c19Round3(p, r)
 	r.Rule("R6", "the decimal count of a scaled number is read off the shortest exact decimal rendering of the value: strconv.FormatFloat with format 'f', precision -1 and the bit size of the value's own type (64 for a float64 that was not widened from float32)")
 	nFmt := 0
 	for _, fn := range p.RepoFns("model", "spine", "util") {
@@ -371,4 +372,128 @@ func customDecoderFresh(p *Prog, r *Report, rule string) {
 		})
 	}
 	r.Floor(rule, "custom decoders", n, 1)
+}
+
+// c19Round3: rules added after the third round of seeded changes.
+func c19Round3(p *Prog, r *Report) {
+	r.Rule("R9", "the duration reader accepts whatever the period parser accepts: in the function that calls period.Parse every error return is reached only on the non-nil edge of the parser's error (no second, stricter acceptance test between parsing and conversion)")
+	nReaders := 0
+	for _, fn := range p.RepoFns("model") {
+		var parse *ssa.Call
+		forEachCallOwn(fn, func(site ssa.CallInstruction) {
+			if c, ok := site.(*ssa.Call); ok {
+				if callee := c.Call.StaticCallee(); callee != nil && strings.HasSuffix(fnPkgPath(callee), "/period") && callee.Name() == "Parse" {
+					parse = c
+				}
+			}
+		})
+		if parse == nil {
+			continue
+		}
+		nReaders++
+		nErr, nOK := 0, 0
+		okAll := true
+		detail := ""
+		for _, b := range fn.Blocks {
+			ret, isRet := b.Instrs[len(b.Instrs)-1].(*ssa.Return)
+			if !isRet || len(ret.Results) == 0 {
+				continue
+			}
+			last := ret.Results[len(ret.Results)-1]
+			if !errLike(last.Type()) {
+				continue
+			}
+			if isNilConst(last) {
+				nOK++
+				continue
+			}
+			nErr++
+			for _, g := range Guards(b) {
+				x, trueNil, isNil := nilTest(g.Cond)
+				fromParse := false
+				if isNil {
+					if ex, isEx := x.(*ssa.Extract); isEx && ex.Tuple == ssa.Value(parse) {
+						fromParse = true
+					}
+				}
+				if !fromParse || trueNil == g.Val {
+					okAll = false
+					detail = "an error is returned under " + guardDesc([]Guard{g})
+				}
+			}
+		}
+		r.Check("R9", FnName(fn)+"|rejects-only-parse-errors", okAll && nOK > 0, p.Pos(fn.Pos()), fmt.Sprintf("%d error returns, %d successful returns; %s", nErr, nOK, detail))
+	}
+	r.Floor("R9", "functions reading a duration with period.Parse", nReaders, 1)
+
+	r.Rule("R10", "every value built by a constructor of the data model owns its parts: the address of a package-level variable is never stored into an object or returned (two values sharing one scale, number or timestamp cell change together)")
+	nStores, nBad := 0, 0
+	for _, fn := range p.RepoFns("model") { // the data model's constructors; spine shares one read-only version string between datagram headers by design
+		if isWrapper(fn) || fn.Name() == "init" {
+			continue
+		}
+		for _, b := range fn.Blocks {
+			for _, ins := range b.Instrs {
+				switch x := ins.(type) {
+				case *ssa.Store:
+					if _, isField := x.Addr.(*ssa.FieldAddr); !isField {
+						continue
+					}
+					if _, isPtr := x.Val.Type().Underlying().(*types.Pointer); !isPtr {
+						continue
+					}
+					nStores++
+					if g, isG := x.Val.(*ssa.Global); isG && g.Pkg != nil && strings.HasPrefix(g.Pkg.Pkg.Path(), repoMod) {
+						nBad++
+						r.Fail("R10", fmt.Sprintf("fn:%s|global:%s", FnName(originOf(fn)), g.Name()), p.InstrPos(x), fmt.Sprintf("the address of package-level variable %s is stored into %s: every value built this way shares that one cell", g.Name(), Path(x.Addr)))
+					}
+				case *ssa.Return:
+					for _, res := range x.Results {
+						if g, isG := res.(*ssa.Global); isG && g.Pkg != nil && strings.HasPrefix(g.Pkg.Pkg.Path(), repoMod) && fnPkgPath(fn) == repoMod+"/model" {
+							nBad++
+							r.Fail("R10", fmt.Sprintf("fn:%s|global:%s|returned", FnName(originOf(fn)), g.Name()), p.InstrPos(x), "the address of a package-level variable is returned as a value of the data model")
+						}
+					}
+				}
+			}
+		}
+	}
+	if nBad == 0 {
+		r.Pass("R10", "pointer-stores", "", fmt.Sprintf("%d stores of a pointer into a field: none stores the address of a package-level variable", nStores))
+	}
+	r.Floor("R10", "stores of a pointer into a field", nStores, 8)
+
+	r.Rule("R11", "a custom JSON encoder is used however the value is encoded: MarshalJSON of a data-model type has a value receiver (with a pointer receiver encoding/json skips it for every value that is not addressable — a struct field of a value, an interface, a map element — and emits the internal representation instead)")
+	nEnc := 0
+	for _, pk := range p.Pkgs {
+		if pk.Types == nil || pk.Types.Path() != repoMod+"/model" {
+			continue
+		}
+		scope := pk.Types.Scope()
+		for _, name := range scope.Names() {
+			tn, ok := scope.Lookup(name).(*types.TypeName)
+			if !ok {
+				continue
+			}
+			named, ok := tn.Type().(*types.Named)
+			if !ok {
+				continue
+			}
+			for i := 0; i < named.NumMethods(); i++ {
+				m := named.Method(i)
+				if m.Name() != "MarshalJSON" {
+					continue
+				}
+				nEnc++
+				sig := m.Type().(*types.Signature)
+				_, ptrRecv := sig.Recv().Type().(*types.Pointer)
+				pos := ""
+				if p.Fset != nil {
+					pos = p.Pos(m.Pos())
+				}
+				r.Check("R11", "type:model."+name+"|MarshalJSON-receiver", !ptrRecv, pos, fmt.Sprintf("MarshalJSON of %s has a pointer receiver: %v", name, ptrRecv))
+			}
+		}
+	}
+	r.Floor("R11", "custom JSON encoders in package model", nEnc, 1)
 }
